@@ -233,6 +233,11 @@ func lexMessageHeader(l *lexer) stateFn {
 			l.emit(tokenTypeLeftAngleBracket)
 			return lexMessageText
 		default:
+			if unicode.IsSpace(r) {
+				// other whitespace also ends a message name, so it cannot start one
+				l.ignore()
+				break
+			}
 			for {
 				r := l.next()
 				if r == eof || unicode.IsSpace(r) || strings.HasPrefix(l.input[l.pos-1:], "//") {
